@@ -232,7 +232,7 @@ def check_diag(prop, tier, seed, collect=False):
     t0 = time.time()
     wd = workdir(f"{prop}_{tier}" + ("_diag" if collect else ""))
     build_harness()
-    u, gst, gtr = universes("GenTokens.tla", wd, ["TOKENS"])
+    u, gst, gtr = universes("GenTokens.tla", wd, ["TOKENS", "CLOSURE_SOURCES", "ARITY_CALLS"])
     tokens = u["TOKENS"]
     rnd = random.Random(seed)
     srcs = [""]
@@ -252,6 +252,7 @@ def check_diag(prop, tier, seed, collect=False):
     # span-arithmetic stress: multi-byte whitespace before an expression, quoted multi-byte fields in assignment targets
     srcs += ["x =\u00a0to_string(.a)", "x = 1\nx.\"é\\\"\\\"\" = 2", ".\"é\".b = to_int(.a)", "é = 1\né.a.b = 2\né.a = 3", "x = 1\nx.é = to_int(.é)",
              "\u00a0.a = to_int(.b)", "if\u00a0.é { 1 }", "[1,\u00a0to_int(.é)]", "upcase(\u00a0.é\u00a0)", "{ \"é\": to_int(.a) }"]
+    srcs += u["CLOSURE_SOURCES"] + u["ARITY_CALLS"]
     nmut = 12000 if tier == "quick" else 150000
     for _ in range(nmut):
         m = mutate(rnd.choice(corpus), tokens, rnd)
@@ -585,6 +586,35 @@ def law_cases(prop, tier, rnd, U):
         plains += [(65, 128), (65, 128, 0, 0), (65, 1), (65, 2, 2), (65, 0, 0, 3), tuple([16] * 16), tuple([0] * 16), tuple([65] * 15 + [1]), tuple([65] * 14 + [128, 0])]
         plains += [tuple(rnd.choice(BA) for _ in range(rnd.randint(1, 40))) for _ in range(10 if tier == "quick" else 200)]
         nkeys = 2 if tier == "quick" else 6
+        def shaped(n, shape):
+            if shape == "zeros":
+                return tuple([0] * n)
+            if shape == "ones":
+                return tuple([255] * n)
+            b = list(rb(n))
+            if shape == "low8-ones":
+                b[-8:] = [255] * min(8, n)
+            elif shape == "low4-ones":
+                b[-4:] = [255] * min(4, n)
+            elif shape == "last-byte-fe":
+                b[-1] = 254
+            elif shape == "low8-ones-but-last-fe":
+                b[-8:] = [255] * min(8, n)
+                b[-1] = 254
+            elif shape == "high8-ones":
+                b[:8] = [255] * min(8, n)
+            elif shape == "low-half-ones-high-half-random":
+                b[n // 2:] = [255] * (n - n // 2)
+            return tuple(b)
+        long_plains = [rb(n) for n in (17, 33, 48, 65, 100)]
+        for alg, (klen, ivlen) in sorted(U["CIPHERS"].items()):
+            for ivs in U["IV_SHAPES"]:
+                for ks in (U["KEY_SHAPES"] if ivs in ("random", "ones") else ["random"]):
+                    if ivs == "random" and ks == "random":
+                        continue
+                    for ptx in long_plains:
+                        add("cipher", f"encrypt/decrypt({alg})", {"enc": f'encrypt!(.x, "{alg}", key: .key, iv: .iv)', "dec": f'decrypt!(encrypt!(.x, "{alg}", key: .key, iv: .iv), "{alg}", key: .key, iv: .iv)'},
+                            {"x": lbytes(ptx), "key": lbytes(shaped(klen, ks)), "iv": lbytes(shaped(ivlen, ivs)), "documented": True, "shape": f"iv:{ivs}/key:{ks}"})
         for alg, (klen, ivlen) in sorted(U["CIPHERS"].items()):
             variants = [alg] + ([alg.lower()] if tier != "quick" or alg.endswith("CFB") else [])
             for a in variants:
@@ -860,7 +890,7 @@ def check_laws(prop, tier, seed):
     wd = workdir(f"{prop}_{tier}")
     build_harness()
     U, gst, gtr = universes("GenLaws.tla", wd, ["STR_ALPHABET", "KV_ALPHABET", "DELIMS", "BASES", "BYTE_ALPHABET", "TEXT_ALPHABET", "PERCENT_SETS",
-                                                      "CIPHERS", "IP_MODES", "JSON_ALPHABET"])
+                                                      "CIPHERS", "IP_MODES", "JSON_ALPHABET", "IV_SHAPES", "KEY_SHAPES"])
     rnd = random.Random(seed)
     cases = law_cases(prop, tier, rnd, U)
     rnd.shuffle(cases)
